@@ -8,6 +8,7 @@ import (
 
 func init() {
 	vfHarnesses["VerifH_serveHTTP_encoding"] = VerifH_serveHTTP_encoding
+	vfHarnesses["VerifH_serveGRPC_compressed"] = VerifH_serveGRPC_compressed
 }
 
 // vfMarkCompressor is a recognisable "compression": Compress prefixes the stream with "Z:",
@@ -99,6 +100,59 @@ func VerifH_serveHTTP_encoding() {
 		vfCover("plain-response")
 	}
 	if compressedReq {
+		vfCover("compressed-request")
+	}
+}
+
+// VerifH_serveGRPC_compressed (C06, C08): a unary gRPC call with per-message compression (marking
+// compressor negotiated through Grpc-Encoding): the handler receives the decompressed request, the
+// client receives a frame flagged compressed whose payload decompresses to the reply, and the
+// response announces the encoding; a frame flagged compressed without a negotiated compressor is
+// refused.
+func VerifH_serveGRPC_compressed() {
+	in := schemaRoute()
+	out := newFakeMD("vf.Resp", strField("r"))
+	comp := &vfMarkCompressor{}
+	mux, srv, rec := vfMuxWith(vfHTTPRule("GET", "/aa/{f}"), in, out, CompressorOption("zz", comp), MaxReceiveMessageSizeOption(8))
+	payload := vfBytes(vfLen(2))
+	negotiated := vfBool()
+	flagged := vfBool()
+	body := payload
+	flag := byte(0)
+	if flagged {
+		flag = 1
+		body = append([]byte("Z:"), payload...)
+	}
+	frame := append([]byte{flag, 0, 0, 0, byte(len(body))}, body...)
+	h := http.Header{"Content-Type": []string{"application/grpc+fake"}}
+	if negotiated {
+		h["Grpc-Encoding"] = []string{"zz"}
+	}
+	r := &http.Request{Method: "POST", URL: &url.URL{Path: "/vf.S/M0"}, Header: h, Body: vfNopCloser{&vfWholeReader{data: frame}}, ContentLength: -1, ProtoMajor: 2}
+	w := newFakeRW()
+	mux.ServeHTTP(w, r)
+	w.finish()
+	gs, _ := w.trailer("Grpc-Status")
+	if flagged && !negotiated {
+		vfCheck(srv.calls == 0 || len(rec.unmarshal) == 0, "a frame flagged compressed reached the codec although no compressor was negotiated")
+		vfCheck(len(gs) == 1 && gs[0] != "0", "a frame flagged compressed without a negotiated compressor was not refused")
+		vfCover("flag-without-encoding")
+		return
+	}
+	vfCheck(srv.calls == 1 && len(gs) == 1 && gs[0] == "0", "compressed call failed")
+	vfCheck(len(rec.unmarshal) == 1 && vfBytesEq(rec.unmarshal[0], payload), "the handler did not receive the decompressed request message")
+	if negotiated {
+		ge := w.sentHeader["Grpc-Encoding"]
+		vfCheck(len(ge) == 1 && ge[0] == "zz", "response does not announce the negotiated message encoding")
+		want := append([]byte{1, 0, 0, 0, 7}, []byte("Z:REPLY")...)
+		vfCheck(vfBytesEq(w.body, want), "reply frame is not flagged compressed with the compressed reply as payload")
+		vfCover("compressed-reply")
+	} else {
+		want := append([]byte{0, 0, 0, 0, 5}, []byte("REPLY")...)
+		vfCheck(vfBytesEq(w.body, want), "reply frame of an uncompressed call is not plain")
+		vfCover("plain")
+	}
+	if flagged {
 		vfCover("compressed-request")
 	}
 }
